@@ -168,9 +168,11 @@ class C02(SMSpec):
                     # decorator-default durations (nothing written to the duration topics), incl. a redefined timed state
                     + [mkjob("S9", 6, 0, ext=False, sym_durations=False), mkjob("S7", 5, 0, ext=False, sym_durations=False, variant=2),
                        mkjob("S10", 5, 0, ext=False, sym_durations=False, variant=3), mkjob("S11", 6, 0, ext=False, variant=4)])
-        return ([mkjob(s, 8, 1, ext=False, variant=1, rewrite=True) for s in ("S2", "S6")]
-                + [mkjob("S7", 8, 0, ext=False, variant=2, rewrite=True), mkjob("S1", 7, 1, ext=False, variant=1),
-                   mkjob("S3", 6, 1, ext=False, variant=5)])
+        return ([mkjob(s, 8, 1, ext=False, variant=1) for s in ("S2", "S6", "S7")]
+                + [mkjob("S6", 7, 0, ext=False, variant=2, rewrite=True), mkjob("S2", 5, 0, ext=False, variant=2, rewrite=True),
+                   mkjob("S7", 4, 0, ext=False, variant=2, rewrite=True), mkjob("S1", 7, 1, ext=False, variant=1), mkjob("S3", 6, 1, ext=False, variant=5),
+                   mkjob("S9", 8, 0, ext=False, sym_durations=False), mkjob("S10", 7, 0, ext=False, sym_durations=False, variant=3),
+                   mkjob("S11", 7, 1, ext=False, variant=4), mkjob("S8", 6, 1, ext=False, variant=1)])
 
     def reach_required(self, tier):
         return ["engagement-start", "timed-pair", "timed-stays", "timed-expired", "restart", "self-loop-note"][:5]
